@@ -166,6 +166,13 @@ func writeDesc(w io.Writer, desc string, indent int, withDesc bool) (err error) 
 		}
 	}
 	shift := strings.Repeat("  ", indent)
+	// The parser treats a backslash as the start of an escape sequence and
+	// three quotes as the end of a block string, both must be escaped or the
+	// output does not read back as the same description.
+	if strings.Contains(desc, "\\") || strings.Contains(desc, `"""`) {
+		desc = strings.ReplaceAll(desc, "\\", "\\\\")
+		desc = strings.ReplaceAll(desc, `"`, `\"`)
+	}
 	if strings.ContainsAny(desc, "\n\"") {
 		if _, err = w.Write([]byte(shift)); err == nil {
 			shift = "\n" + shift
